@@ -10,6 +10,8 @@ import gen as G
 import obs
 import payloads as PL
 
+from props import e2e as E2E
+
 PROPS_FILES = ["props/C01.v"]
 ALWAYS_SEARCH = True      # the database-semantics oracle is cheap (seconds)
 RULE = ("per generated decode function: all-zero, all-ones, in-range backgrounds, random, and one field at a time at "
@@ -26,6 +28,10 @@ ASSUMPTIONS = ["text fields: ASCII bytes plus single invalid bytes (0x80-0xC1, 0
 IMP = ("From NV Require Import Base Bits Defn PyNum Fields CorrFields.\n"
        "From NVGen Require Import GenCode GenLookups.")
 CHK = "code_lookups code_bitlookups code_indirect code_dec"
+
+
+TRUSTED = list(TRUSTED) + list(E2E.TRUSTED)
+ASSUMPTIONS = list(ASSUMPTIONS) + list(E2E.ASSUMPTIONS)
 
 
 def gen(ctx):
@@ -59,6 +65,8 @@ def gen(ctx):
         ok2, out2 = G.compile_template("DiagC01")
         ctx.hints.append({"kind": "tables", "diag": " ".join(out2.split())[-1500:]})
         ctx.notes.append("table obligation fails: " + " ".join(out2.split())[-1500:])
+
+    E2E.gen(ctx)     # end-to-end theorems (packet bytes -> returned message) for the tables of this run
 
 
 def _fname_lit(name, prefix="decode_pgn_"):
@@ -120,7 +128,7 @@ def correspond(ctx):
               distinct_nontrivial=distinct_count([(a, b) for a, b, _ in vraw]), unmodelled=r2.get("counted", 0),
               failing_cases=[{"fn": vraw[k][0], "payload": vraw[k][1], "class": vraw[k][2]} for k in r2["failing"][:30]],
               samples=[{"fn": vraw[k][0], "payload": hex(vraw[k][1]), "class": vraw[k][2]} for k in (0, len(vraw) - 1)] if vraw else [])
-    return [r, r2] + _unit_cases(ctx)
+    return [r, r2] + _unit_cases(ctx) + E2E.correspond(ctx, prop="C01", n_tcp=ctx.n(40, 300), n_other=ctx.n(10, 60), n_wide=ctx.n(50, 400))
 
 
 def _num(x):
@@ -497,11 +505,14 @@ def search(ctx):
                 seen.add(w["key"])
                 w["class"] = label
                 out.append(w)
+    out += E2E.search(ctx)
     return out
 
 
 def replay(ctx, data):
     w = data.get("witness", data)
+    if w.get("kind") == "e2e-glue":
+        return E2E.replay(ctx, data)
     d = next((x for x in PL.definitions() if x["PGN"] == w["pgn"] and x["Id"] == w["id"]), None)
     if d is None:
         return True
